@@ -12,6 +12,7 @@ L1 == Prims
       \cup {Node("map", a, a, "-", "inc", "-", 0) : a \in Prims}
       \cup {Node("map2", a, b, "-", "-", "-", 0) : a \in Prims, b \in Prims}
       \cup {Node("ap", a, b, "-", "-", "-", 0) : a \in Prims, b \in Prims}
+      \cup {Node(k, a, a, "-", "-", "-", x) : k \in {"aptry", "apoption"}, a \in Prims, x \in {0, 1}}
       \cup {Node("then", a, b, "-", "-", "-", 0) : a \in Prims, b \in Prims}
 L2 == L1 \cup {Node("rec", a, a, "-", "-", v, x) : a \in L1, v \in Variants, x \in {0, 1}}
          \cup {Node("then", a, b, "-", "-", "-", 0) : a \in L1, b \in {P("get", 20, 0, "-", "-")}}
